@@ -72,6 +72,11 @@ template<typename T, typename D> void quantile_decode_vs_api(const std::string& 
 }
 
 // ------------------------------------------------------------------- KLL
+// generated (non-corpus) cases only: merge with an estimation-mode operand of SMALLER k, which is the only way the documented
+// minK field (bytes 16-17 of the full image) differs from k; the model value is min(k, k of estimation-mode operands)
+inline bool& kll_smaller_k_merge_mode() { static bool m = false; return m; }
+inline int& kll_expected_min_k() { static int v = -1; return v; }
+
 template<typename T> struct KllFam {
   using SK = kll_sketch<T>;
   static SK gen(int variant, Rng& r, bool small) {
@@ -80,6 +85,19 @@ template<typename T> struct KllFam {
     const uint16_t k = small ? ks[(variant / 6) % 3] : ks[r.below(4)];
     const uint64_t dom = 1ULL << 20;
     SK s(k);
+    kll_expected_min_k() = -1;
+    if (kll_smaller_k_merge_mode()) {
+      const uint16_t ko = static_cast<uint16_t>(8 + r.below(k - 8 + 1));          // 8 <= ko <= k
+      SK o(ko);
+      for (uint64_t i = 0, m = r.chance(0.2) ? r.below(ko) : ko + 1 + r.below(small ? 10 * ko : 200 * ko); i < m; ++i) o.update(GenItem<T>::make(r, dom));
+      for (uint64_t i = 0, m = r.below(small ? 6 * k : 100 * k); i < m; ++i) s.update(GenItem<T>::make(r, dom));
+      int want = k;
+      if (o.is_estimation_mode()) want = std::min<int>(want, ko);
+      if (r.coin()) s.merge(o); else { o.merge(s); if (s.is_estimation_mode()) want = std::min<int>(ko, k); else want = ko; kll_expected_min_k() = want; count("kll_merge_into_smaller_k"); return o; }
+      kll_expected_min_k() = want;
+      if (want < k) count("kll_min_k_below_k");
+      return s;
+    }
     uint64_t n = 0;
     switch (state) {
       case 0: n = 0; break;
@@ -118,6 +136,15 @@ template<typename T> struct KllFam {
     const T mn = d.single ? d.items[0] : d.min_item, mx = d.single ? d.items[0] : d.max_item;
     VF_CHECK(mn == s.get_min_item() && mx == s.get_max_item(), "kll|image-vs-api|min-max", ctx);
     VF_CHECK(d.min_k <= d.k, "kll|image|min-k-above-k", ctx);
+    if (!d.single) {
+      // minK is what the a-priori error of the sketch is computed from
+      VF_CHECK(s.get_normalized_rank_error(false) == SK::get_normalized_rank_error(d.min_k, false) && s.get_normalized_rank_error(true) == SK::get_normalized_rank_error(d.min_k, true),
+               "kll|image-vs-api|min-k-vs-normalized-rank-error", ctx + " stored min_k=" + std::to_string(d.min_k) + " k=" + std::to_string(d.k));
+      if (kll_expected_min_k() >= 0) VF_CHECK(d.min_k == kll_expected_min_k(), "kll|image-vs-model|min-k-after-merge-with-smaller-k", ctx + " stored=" + std::to_string(d.min_k) + " model=" + std::to_string(kll_expected_min_k()));
+      const SK back = read(img, false);
+      VF_CHECK(back.get_normalized_rank_error(false) == s.get_normalized_rank_error(false), "kll|restored|normalized-rank-error", ctx + " restored=" + str(back.get_normalized_rank_error(false)) + " original=" + str(s.get_normalized_rank_error(false)));
+      if (d.min_k < d.k) count("kll_image_min_k_below_k");
+    }
     // (flag compared with the state before any query below sorts level zero as a side effect)
     if (!d.single) {
       const size_t l0 = (d.num_levels > 1 ? d.levels[1] : d.levels[0] + uint32_t(d.items.size())) - d.levels[0];
@@ -251,12 +278,17 @@ template<typename Fam> void register_quantile_family(const std::string& name, in
   // REQ recipes record the stream image (the byte image of 2..4 items is padded on the pinned tree, DESIGN.md §7 #6)
   f.build = [is_req](int v, Rng& r, bool small) { auto s = Fam::gen(v, r, small); return Built{Fam::write(s, is_req), Fam::readout(s)}; };
   f.read = [](const std::string& img, bool stream, int) { return Fam::readout(Fam::read(img, stream)); };
-  f.decode_case = [name, is_req](int v, Rng& r, bool small) {
+  const bool is_kll = name.compare(0, 3, "kll") == 0;
+  f.decode_case = [name, is_req, is_kll](int v, Rng& r, bool small) {
+    kll_smaller_k_merge_mode() = is_kll && r.chance(0.3);
     auto s = Fam::gen(v, r, small);
+    kll_smaller_k_merge_mode() = false;
     const std::string ctx = "variant=" + std::to_string(v) + " k=" + std::to_string(s.get_k()) + " n=" + std::to_string(s.get_n());
     const std::string b = Fam::write(s, false), st = Fam::write(s, true);
     Fam::check(s, st, ctx + " path=stream");
     if (b != st) {
+      size_t i = 0; while (i < b.size() && i < st.size() && b[i] == st[i]) ++i;
+      checked(); fail(name.substr(0, name.find('_')) + "|image|bytes-path-image-differs-from-stream-path-image", ctx + " first differing byte " + std::to_string(i) + " sizes " + std::to_string(b.size()) + "/" + std::to_string(st.size()));
       count(name + "_paths_differ");
       // REQ 2..4 items: byte image longer than the stream image (superfluous trailing zeros) is C09's finding, not a layout question
       const bool padded = is_req && b.size() > st.size() && b.compare(0, st.size(), st) == 0 && b.find_first_not_of('\0', st.size()) == std::string::npos;
